@@ -48,6 +48,7 @@ type Exec struct {
 	pos    int
 	model  map[string]uint64 // a model of pc, or nil if none cached
 	bind   map[*Term]*Term   // var -> const implied by pc
+	known  map[*Term]bool    // boolean terms whose value is implied by pc
 	subMem map[*Term]*Term
 	symCnt map[string]int
 	inputs []InputRec
@@ -166,6 +167,7 @@ func (e *Exec) addPC(c *Term) {
 		return
 	}
 	e.pc = append(e.pc, c)
+	e.setKnown(c, true)
 	if e.model != nil {
 		if Eval(c, e.model, map[*Term]uint64{}) == 0 {
 			e.model = nil
@@ -220,11 +222,24 @@ func (e *Exec) nextPrefix() (Decision, bool) {
 	return Decision{}, false
 }
 
+func (e *Exec) setKnown(c *Term, v bool) {
+	if e.known == nil {
+		e.known = map[*Term]bool{}
+	}
+	e.known[c] = v
+	if c.Op == OpNot {
+		e.known[c.A[0]] = !v
+	}
+}
+
 // branch decides which way a symbolic condition goes on this path.
 func (e *Exec) branch(c *Term) bool {
 	c = e.subst(c)
 	if c.IsConst() {
 		return c.V != 0
+	}
+	if v, ok := e.known[c]; ok {
+		return v
 	}
 	e.nontriv = true
 	if d, ok := e.nextPrefix(); ok {
@@ -235,6 +250,8 @@ func (e *Exec) branch(c *Term) bool {
 			} else {
 				e.addPC(e.tb.Not(c))
 			}
+		} else {
+			e.setKnown(c, d.Choice == 1)
 		}
 		return d.Choice == 1
 	}
@@ -278,9 +295,11 @@ func (e *Exec) branch(c *Term) bool {
 		return true
 	case tOK:
 		e.record(Decision{Choice: 1, Forced: true})
+		e.setKnown(c, true)
 		return true
 	case fOK:
 		e.record(Decision{Choice: 0, Forced: true})
+		e.setKnown(c, false)
 		return false
 	}
 	// both unsat: pc itself is unsatisfiable (can only follow an 'unknown')
